@@ -22,6 +22,10 @@ const (
 	labelSilent = "hsilent" // write nothing, return nil
 	labelError  = "herror"  // write nothing, return an ordinary error
 	labelNetErr = "hneterr" // write nothing, return a net timeout error
+	// labelBadPack: build the usual response plus a record that cannot be put
+	// on the wire (a TXT character-string of 300 bytes), write it, and return
+	// whatever error the writer gave, as every service handler does.
+	labelBadPack = "hbadpack"
 )
 
 var errHandler = errors.New("c01: scripted handler failure")
@@ -147,6 +151,15 @@ func hServe(ctx context.Context, rw dnsserver.ResponseWriter, req *dns.Msg) (err
 		return errHandler
 	case labelNetErr:
 		return timeoutErr{}
+	case labelBadPack:
+		opt := req.IsEdns0()
+		resp := hResponse(req, q, opt != nil && opt.Do(), opt != nil)
+		resp.Answer = append(resp.Answer, &dns.TXT{
+			Hdr: dns.RR_Header{Name: q.Name, Rrtype: dns.TypeTXT, Class: dns.ClassINET, Ttl: 1},
+			Txt: []string{strings.Repeat("u", 300)},
+		})
+
+		return rw.WriteMsg(ctx, req, resp)
 	}
 
 	do := false
@@ -282,10 +295,11 @@ const (
 	refSilent                // H wrote nothing and returned nil
 	refError                 // H returned an error
 	refNetErr                // H returned a net timeout error
+	refBadPack               // H handed the writer a response that cannot be packed and returned the writer's error
 )
 
 func (k refKind) String() string {
-	return [...]string{"wrote", "handler-silent", "handler-error", "handler-neterror"}[k]
+	return [...]string{"wrote", "handler-silent", "handler-error", "handler-neterror", "handler-write-error"}[k]
 }
 
 var refAddr = &net.TCPAddr{IP: net.IPv4(127, 0, 0, 1), Port: 1}
@@ -293,6 +307,12 @@ var refAddr = &net.TCPAddr{IP: net.IPv4(127, 0, 0, 1), Port: 1}
 // reference invokes H directly through a NonWriterResponseWriter, as the
 // design prescribes, on a private copy of the request.
 func reference(req *dns.Msg) (kind refKind, resp *dns.Msg) {
+	if len(req.Question) == 1 && strings.EqualFold(firstLabel(req.Question[0].Name), labelBadPack) {
+		// The outcome of this class depends on the writer, which is the
+		// transport's; the expectation table says what each one documents.
+		return refBadPack, nil
+	}
+
 	nrw := dnsserver.NewNonWriterResponseWriter(refAddr, refAddr)
 	err := hServe(context.Background(), nrw, req.Copy())
 	switch {
